@@ -10,7 +10,17 @@ package process
 //@ ghost var lastAlivePid int
 //@ ghost var lastAlive bool
 
+// What signalling the process with signal 0 answered (ghost record of (*os.Process).Signal).
+//@ ghost var lastSignalErr error
+// IsRunning: a process that can be signalled is alive, and so is one that exists but belongs to somebody else
+// (EPERM: the lock of another user's live process must not be taken for stale); no such process (ESRCH) or an
+// already finished one is dead.
 //@ func IsRunning
-//@   trusted
-//@   modifies aliveChecks, lastAlivePid, lastAlive
-//@   ensures aliveChecks == old(aliveChecks) + 1 && lastAlivePid == pid && lastAlive == result
+//@   props C19
+//@   modifies aliveChecks, lastAlivePid, lastAlive, lastSignalErr
+//@   opt trusted_frame
+//@   defines aliveChecks == old(aliveChecks) + 1 && lastAlivePid == pid && lastAlive == result
+//@   let e = lastSignalErr
+//@   check [signalled-means-alive]  process != nil && err == nil ==> result
+//@   check [eperm-means-alive]      process != nil && err != nil && err.Error() != "os: process already finished" && typeof(err) == type[syscall.Errno] && err.(syscall.Errno) == syscall.EPERM ==> result
+//@   check [esrch-means-dead]       process != nil && err != nil && typeof(err) == type[syscall.Errno] && err.(syscall.Errno) == syscall.ESRCH ==> !result
